@@ -31,6 +31,8 @@ def tags_of(e, acc=None):
     acc = set() if acc is None else acc
     if isinstance(e, Sym):
         t = e.tag
+        if t == 'j6-arg':
+            acc.add('j6')          # the requested J6 of the 5-DOF solver: scripted a turn high / low like a computed angle
         if isinstance(t, tuple):
             if t and t[0] == 'T':
                 acc.add(t[1])
@@ -217,6 +219,10 @@ class Tail:
             scenarios.append(('column %d one turn low' % c, Scenario(low=tg)))
         for r in range(8):
             scenarios.append(('row %d fails the gate' % r, Scenario(gate_false=[r])))
+        if self.five:
+            # the requested J6 outside (-pi, pi]: it must come back as it is (a reduction that reaches slot 6 shows here)
+            scenarios.append(('requested J6 one turn high', Scenario(high=['j6'])))
+            scenarios.append(('requested J6 one turn low', Scenario(low=['j6'])))
         self.n_scenarios = len(scenarios)
         seen_keys = set()
         for name, sc in scenarios:
